@@ -171,11 +171,6 @@ class Multiplexer(ComplexDop):
             odxraise(f"Multiplexer keys must be integers (is '{type(key_value).__name__}'"
                      f" for multiplexer '{self.short_name}')")
 
-        # "If a matching CASE is found, the referenced STRUCTURE is
-        # analyzed at the BYTE-POSITION (child element of MUX)
-        # relatively to the byte position of the MUX."
-        decode_state.cursor_byte_position = decode_state.origin_byte_position + self.byte_position
-
         applicable_case: Optional[Union[MultiplexerCase, MultiplexerDefaultCase]] = None
         for mux_case in self.cases:
             lower, upper = self._get_case_limits(mux_case)
@@ -194,6 +189,12 @@ class Multiplexer(ComplexDop):
             return (None, None)
 
         if applicable_case.structure is not None:
+            # "If a matching CASE is found, the referenced STRUCTURE is
+            # analyzed at the BYTE-POSITION (child element of MUX)
+            # relatively to the byte position of the MUX."  (if the
+            # case does not reference a structure, the cursor stays
+            # behind the switch key, like when encoding.)
+            decode_state.cursor_byte_position = decode_state.origin_byte_position + self.byte_position
             case_value = applicable_case.structure.decode_from_pdu(decode_state)
         else:
             case_value = {}
